@@ -279,8 +279,18 @@ def confinement_facts(ctx, facts):
             cmds = sorted(M_[r]["qual"] for r, s_ in per_root.items() if a["meth"] in s_)
             reached.append({"interface": pseudo[a["field"]], "call_in": M_[a["meth"]]["qual"], "line": a["line"],
                             "locks_held": [F_[l]["cls"] + "::" + F_[l]["name"] for l in a["locks"]], "commands": cmds})
-    lost = bool(reached) or rc != 0
-    info = {"confinement_lost": lost, "lean_facts_hold": rc == 0, "reached": reached[:20],
+    guarded = facts.get("guarded_model_calls", [])
+    if guarded:
+        ctx.notes.append("guarded model calls (not an alarm; ThreadSanitizer decides): a command calls a user model interface under a mutex of the "
+                         "calling object; the table cannot establish that the filtering thread's calls take the same mutex (one pseudo-member per "
+                         "interface for all owner classes): %s" % "; ".join("%s in %s:%d under %s" % (g["interface"], g["function"], g["line"], g["locks"]) for g in guarded[:6]))
+    gcalls = facts.get("guarded_calls", [])
+    if gcalls:
+        ctx.notes.append("guarded calls (not an alarm; ThreadSanitizer decides): a command-reachable function calls into another object while holding a mutex "
+                         "of its own object; the same-object lockset discipline cannot credit that lock to the callee's members: %s"
+                         % "; ".join("%s -> %s under %s" % (g["caller"], g["callee"], g["locks"]) for g in gcalls[:6]))
+    lost = bool(reached) or bool(guarded) or bool(gcalls) or rc != 0
+    info = {"confinement_lost": lost, "lean_facts_hold": rc == 0, "reached": reached[:20], "guarded_model_calls": guarded[:20], "guarded_calls": gcalls[:30],
             "model": facts.get("model_confined"), "hooks": facts.get("hooks_confined"),
             "note": "confinement of the user's model objects / filter hooks to the filtering thread is stronger than the property; "
                     "recorded only — the lockset discipline over the pseudo-members decides"}
